@@ -29,7 +29,8 @@ Print Assumptions C04_prefix_t2c.
 Theorem C04_sent_is_what_was_written : forall c early peeked tr s,
   reachable c early peeked tr s ->
   c_sent s = early ++ client_bytes tr /\ t_sent s = peeked ++ target_bytes tr /\
-  c_wr_open s = negb (client_shut tr) /\ t_wr_open s = negb (target_shut tr).
+  c_wr_open s = negb (client_shut tr) /\ t_wr_open s = negb (target_shut tr) /\
+  c_abort s = client_aborted tr /\ t_abort s = target_aborted tr.
 Proof. exact sent_is_written. Qed.
 Print Assumptions C04_sent_is_what_was_written.
 
@@ -37,8 +38,10 @@ Print Assumptions C04_sent_is_what_was_written.
    all of its bytes. *)
 Theorem C04_no_premature_eos : forall c early peeked tr s,
   reachable c early peeked tr s ->
-  (t_eos s = true -> c_wr_open s = false /\ t_in s = c_sent s) /\
-  (c_eos s = true -> t_wr_open s = false /\ c_in s = t_sent s).
+  (t_eos s = true -> (c_wr_open s = false \/ t_abort s = true) /\
+                     (c_abort s = false -> t_abort s = false -> t_in s = c_sent s)) /\
+  (c_eos s = true -> (t_wr_open s = false \/ c_abort s = true) /\
+                     (c_abort s = false -> t_abort s = false -> c_in s = t_sent s)).
 Proof. exact no_premature_eos. Qed.
 Print Assumptions C04_no_premature_eos.
 
@@ -46,7 +49,9 @@ Print Assumptions C04_no_premature_eos.
    was delivered. *)
 Theorem C04_released_only_when_both_done : forall c early peeked tr s,
   reachable c early peeked tr s -> closed s = true ->
-  c_wr_open s = false /\ t_wr_open s = false /\ t_in s = c_sent s /\ c_in s = t_sent s.
+  (c_wr_open s = false \/ t_abort s = true) /\ (t_wr_open s = false \/ c_abort s = true) /\
+  (c_abort s = false -> t_abort s = false ->
+   c_wr_open s = false /\ t_wr_open s = false /\ t_in s = c_sent s /\ c_in s = t_sent s).
 Proof. exact released_only_when_both_done. Qed.
 Print Assumptions C04_released_only_when_both_done.
 
@@ -84,6 +89,7 @@ Print Assumptions C04_settle_reaches_quiescence.
    interleaving, sizes, early data. *)
 Theorem C04_delivery_quiescent : forall early peeked tr s,
   reachable repaired early peeked tr s -> quiescentb s = true ->
+  c_abort s = false -> t_abort s = false ->
   t_in s = c_sent s /\ c_in s = t_sent s.
 Proof. exact delivery_quiescent. Qed.
 Print Assumptions C04_delivery_quiescent.
@@ -93,16 +99,46 @@ Print Assumptions C04_delivery_quiescent.
    connections are released. *)
 Theorem C04_eos_quiescent : forall early peeked tr s,
   reachable repaired early peeked tr s -> quiescentb s = true ->
-  (c_wr_open s = false -> t_eos s = true /\ t_in s = c_sent s) /\
-  (t_wr_open s = false -> c_eos s = true /\ c_in s = t_sent s) /\
+  (c_wr_open s = false ->
+     t_eos s = true /\ (c_abort s = false -> t_abort s = false -> t_in s = c_sent s)) /\
+  (t_wr_open s = false ->
+     c_eos s = true /\ (c_abort s = false -> t_abort s = false -> c_in s = t_sent s)) /\
   (c_wr_open s = false -> t_wr_open s = false -> closed s = true).
 Proof. exact eos_quiescent. Qed.
 Print Assumptions C04_eos_quiescent.
+
+(* Abortive closes (RST: SO_LINGER 0, or close with unread received data; the
+   proxy's copy loop ends with an ERROR instead of EOF): the surviving end is
+   shown end-of-stream all the same, without waiting for anything else, and once
+   both ends are done (shut or aborted) both connections are released.  Bytes
+   in flight toward the aborting end, or not yet read from it, may be lost; the
+   guards above say exactly that. *)
+Theorem C04_abort_quiescent : forall early peeked tr s,
+  reachable repaired early peeked tr s -> quiescentb s = true ->
+  (c_abort s = true -> t_eos s = true) /\ (t_abort s = true -> c_eos s = true) /\
+  ((c_wr_open s = false \/ c_abort s = true) -> (t_wr_open s = false \/ t_abort s = true) ->
+   closed s = true).
+Proof. exact abort_quiescent. Qed.
+Print Assumptions C04_abort_quiescent.
+
+(* In terms of what the ends did: at a checkpoint the surviving end has seen
+   end-of-stream iff its peer shut or aborted, what it received is a prefix of
+   what was sent (nothing delivered is lost or reordered), both done => released. *)
+Theorem C04_checkpoint_with_aborts : forall early peeked tr s,
+  reachable repaired early peeked tr s -> quiescentb s = true ->
+  (target_aborted tr = false -> t_eos s = client_shut tr) /\
+  (client_aborted tr = false -> c_eos s = target_shut tr) /\
+  (client_shut tr = true -> target_shut tr = true -> closed s = true) /\
+  (exists rest, t_in s ++ rest = early ++ client_bytes tr) /\
+  (exists rest, c_in s ++ rest = peeked ++ target_bytes tr).
+Proof. exact checkpoint_view_abort. Qed.
+Print Assumptions C04_checkpoint_with_aborts.
 
 (* Together: at every checkpoint the two ends see exactly the ideal tunnel
    computed from what they did, for every interleaving of the internal steps. *)
 Theorem C04_checkpoint_is_ideal : forall early peeked tr s,
   reachable repaired early peeked tr s -> quiescentb s = true ->
+  client_aborted tr = false -> target_aborted tr = false ->
   view_of s = spec_view early peeked tr.
 Proof. exact checkpoint_view. Qed.
 Print Assumptions C04_checkpoint_is_ideal.
@@ -110,6 +146,7 @@ Print Assumptions C04_checkpoint_is_ideal.
 (* The executable model run by the driver (one particular schedule) shows the
    ideal views whenever it accepts the script. *)
 Theorem C04_model_meets_spec : forall early peeked ps vs,
+  Forall no_abort_phase ps ->
   run_script repaired (init early peeked) ps = Some vs -> vs = spec_views early peeked ps.
 Proof. exact run_script_meets_spec. Qed.
 Print Assumptions C04_model_meets_spec.
@@ -125,6 +162,7 @@ Print Assumptions C04_delivery_quiescent_original_refuted.
 (* ... and only then. *)
 Theorem C04_delivery_quiescent_original_partial : forall peeked tr s,
   reachable original [] peeked tr s -> quiescentb s = true ->
+  c_abort s = false -> t_abort s = false ->
   t_in s = c_sent s /\ c_in s = t_sent s.
 Proof. exact delivery_quiescent_original_partial. Qed.
 Print Assumptions C04_delivery_quiescent_original_partial.
@@ -141,9 +179,18 @@ Print Assumptions C04_eos_quiescent_original_refuted.
 Theorem C04_eos_quiescent_original_partial : forall early peeked tr s,
   reachable original early peeked tr s -> quiescentb s = true ->
   c_wr_open s = false -> t_wr_open s = false ->
-  closed s = true /\ t_eos s = true /\ c_eos s = true /\ t_in s = c_sent s /\ c_in s = t_sent s.
+  closed s = true /\ t_eos s = true /\ c_eos s = true /\
+  (c_abort s = false -> t_abort s = false -> t_in s = c_sent s /\ c_in s = t_sent s).
 Proof. exact eos_quiescent_original_partial. Qed.
 Print Assumptions C04_eos_quiescent_original_partial.
+
+(* ... and the same with an abortive close: the client aborts, the copy loop
+   ends with an error, the target is not told. *)
+Theorem C04_abort_quiescent_original_refuted :
+  exists tr s, reachable original [] [] tr s /\ quiescentb s = true /\
+               c_abort s = true /\ t_eos s = false.
+Proof. exact abort_quiescent_original_refuted. Qed.
+Print Assumptions C04_abort_quiescent_original_refuted.
 
 (* ---------------- the oracle is the property -------------- *)
 
@@ -189,7 +236,7 @@ Proof. eexists. split; [vm_compute; reflexivity|]. split; vm_compute; reflexivit
 
 Example C04_example_script :
   run_script repaired (init ["e"] [])
-    [mkPact ["x"] false ["z"; "z"] false; mkPact [] true [] false; mkPact [] false ["w"] true]
+    [mkPact ["x"] FinNone ["z"; "z"] FinNone; mkPact [] FinShut [] FinNone; mkPact [] FinNone ["w"] FinShut]
   = Some [mkView ["e"; "x"] false ["z"; "z"] false false;
           mkView ["e"; "x"] true ["z"; "z"] false false;
           mkView ["e"; "x"] true ["z"; "z"; "w"] true true].
@@ -199,11 +246,28 @@ Proof. vm_compute. reflexivity. Qed.
    stream are held back until both ends have shut *)
 Example C04_example_script_original :
   run_script original (init ["e"] [])
-    [mkPact ["x"] false ["z"; "z"] false; mkPact [] true [] false; mkPact [] false ["w"] true]
+    [mkPact ["x"] FinNone ["z"; "z"] FinNone; mkPact [] FinShut [] FinNone; mkPact [] FinNone ["w"] FinShut]
   = Some [mkView [] false ["z"; "z"] false false;
           mkView [] false ["z"; "z"] false false;
           mkView ["e"; "x"] true ["z"; "z"; "w"] true true].
 Proof. vm_compute. reflexivity. Qed.
+
+(* an abortive close by the client while the target is idle, and one while the
+   target is sending: the target is told, then shuts, and everything is released *)
+Example C04_example_abort :
+  run_script repaired (init [] [])
+    [mkPact ["x"] FinNone ["z"] FinNone; mkPact [] FinAbort [] FinNone; mkPact [] FinNone ["w"] FinShut]
+  = Some [mkView ["x"] false ["z"] false false;
+          mkView ["x"] true ["z"] false false;
+          mkView ["x"] true ["z"; "w"] true true]
+  /\
+  exists s, reachable repaired [] []
+              [TargetSend ["z"]; ClientAbort; Err2; Err1; TargetShut; Join] s
+            /\ quiescentb s = true /\ t_eos s = true /\ closed s = true /\ c_in s = [].
+Proof.
+  split; [vm_compute; reflexivity|]. eexists. split; [vm_compute; reflexivity|].
+  repeat split; vm_compute; reflexivity.
+Qed.
 
 (* the oracle accepts the ideal measurement of that script and rejects a stalled one *)
 Example C04_example_oracle :
